@@ -168,6 +168,7 @@ fn run(ctx: &mut Ctx) {
     workload::random_operands(ctx, n_rand, &mut j);
     workload::string_families(ctx, &mut j);
     workload::big_operands(ctx, &mut j);
+    workload::deep_expressions(ctx, &mut j);
     // quick: a 1/16 systematic sample of the depth-2 product; thorough: all of unary/binary mixes
     // and 1/8 of binary-in-binary (17*17*34^3*2 = 22.7 M would be the full product)
     depth2(ctx, ctx.tier.of(4, 1));
